@@ -1,6 +1,6 @@
 SPECIFICATION Spec
 CONSTANTS MaxLen = 2 MaxN = 6 Infinite = TRUE MaxOut = 5
-  Vals = "nat" Stops = FALSE MaxRuns = 1
+  Vals = "nat" Stops = FALSE MaxRuns = 1 MaxLead = 1
   Alphabet <- AlphaC02Ext
   Must <- ExtC02
   Pairs <- OnlyPairs
